@@ -84,6 +84,10 @@ type ECase struct {
 	Expect Expect      `json:"expect"`
 	Inner  string      `json:"inner"`
 	Reenc  string      `json:"reenc"`
+	// InnerIsSuffix: Go's re-marshalled inner value equals input[pstart:] (resp. input[o0:o1] for shape A);
+	// ReencIsInput: Go's re-marshalled whole value equals the input. Checked here so that the bytes need not be shipped twice.
+	InnerIsSuffix bool `json:"inner_is_suffix"`
+	ReencIsInput  bool `json:"reenc_is_input"`
 }
 
 type DCase struct {
@@ -408,7 +412,11 @@ func firstDiff(a, b []byte) string {
 func deref(ptr any) any { return reflect.ValueOf(ptr).Elem().Interface() }
 
 func (rc *recorder) rtFail(e entry, path, why string, input []byte, format string) {
-	rc.find(Finding{Key: "C14:roundtrip:" + path + ":" + e.Name, Class: "roundtrip", Type: e.GoType, Op: path, Duty: int(e.Duty), Signed: e.Signed,
+	kn := e.Name
+	if e.KeyName != "" {
+		kn = e.KeyName
+	}
+	rc.find(Finding{Key: "C14:roundtrip:" + kn + ":" + path, Class: "roundtrip", Type: e.GoType, Op: path, Duty: int(e.Duty), Signed: e.Signed,
 		Format: format, Input: render(format, input), Msg: why, Entry: e.Name})
 }
 
@@ -643,6 +651,9 @@ func (rc *recorder) envelopeCase(t *testing.T, e entry, b []byte, label string) 
 				a.Duty.CommitteeLength, a.Duty.CommitteesAtSlot, a.Duty.ValidatorCommitteeIndex}
 			inner, _ = a.Data.MarshalSSZ()
 			reenc, _ = a.MarshalSSZ()
+			if o0, o1 := c.Expect.O0, c.Expect.O1; o0 <= o1 && o1 <= uint64(len(b)) && bytes.Equal(b[o0:o1], inner) {
+				c.InnerIsSuffix = true
+			}
 		} else {
 			ver, flag, idx, v, herr := headerOf(ptr)
 			if herr != nil {
@@ -653,9 +664,17 @@ func (rc *recorder) envelopeCase(t *testing.T, e entry, b []byte, label string) 
 			reenc, _ = deref(ptr).(ssz.Marshaler).MarshalSSZ()
 			if bytes.HasSuffix(b, inner) {
 				c.Expect.PStart, c.Expect.PStartKnown = uint64(len(b)-len(inner)), true
+				c.InnerIsSuffix = true
 			}
 		}
+		c.ReencIsInput = bytes.Equal(reenc, b)
 		c.Inner, c.Reenc = hex.EncodeToString(inner), hex.EncodeToString(reenc)
+		if c.InnerIsSuffix {
+			c.Inner = ""
+		}
+		if c.ReencIsInput {
+			c.Reenc = ""
+		}
 	}
 
 	// inner-codec oracle
@@ -871,7 +890,7 @@ func typeOracle(types map[string]func() any, data []byte) map[string][3]bool {
 func (rc *recorder) dispatchCases(data []byte, label string) {
 	so := typeOracle(signedTypes, data)
 	uo := typeOracle(unsignedTypes, data)
-	prefix := hex.EncodeToString(data[:min(len(data), 48)])
+	prefix := hex.EncodeToString(data[:min(len(data), 24)])
 	for _, d := range dutyTypes {
 		exp := ""
 		if p, _ := safe(func() {
@@ -1157,7 +1176,7 @@ func TestGen(t *testing.T) {
 	var encs []encoded
 	for si := 0; si < seedsPerEntry; si++ {
 		for ei, e := range cat {
-			g := newGen(t, seed*1000+int64(si)*131+int64(ei), 1+si%3, si%2)
+			g := newGen(t, seed*1000+int64(si)*131+int64(ei), 1+si%2, (si/2)%2)
 			v := e.Gen(t, g)
 			jb, sb, _, err := canonical(v)
 			if err != nil {
@@ -1198,6 +1217,7 @@ func TestGen(t *testing.T) {
 			ee.Name = fmt.Sprintf("%s/slot=%d", e.Name, slot)
 			if slot == 20 || slot == 20+1<<32 {
 				ee.Name = fmt.Sprintf("%s/slot=20mod2^32", e.Name)
+				ee.KeyName = "VersionedAttestation:noidx-slot=20mod2^32"
 			}
 			enc := encoded{e: ee, val: a, ssz: sb, json: jb}
 			rc.roundTrips(t, enc, true)
@@ -1206,41 +1226,58 @@ func TestGen(t *testing.T) {
 	}
 
 	// ---- (a) envelope correspondence
+	// every generated value of an enveloped type: its own encoding
 	bySh := map[string][]encoded{}
+	maxHex := 60000
 	for _, enc := range encs {
-		if enc.e.Shape != "" && enc.ssz != nil {
-			bySh[enc.e.Shape] = append(bySh[enc.e.Shape], enc)
+		if enc.e.Shape == "" || enc.ssz == nil {
+			continue
+		}
+		bySh[enc.e.Shape] = append(bySh[enc.e.Shape], enc)
+		if len(enc.ssz)*2 <= maxHex {
+			rc.envelopeCase(t, enc.e, enc.ssz, "valid")
+		} else {
+			rc.stat("envelope_skipped_too_large", 1)
 		}
 	}
-	maxHex := 60000
+	// mutation bases: one small value per (type, version, variant) of each shape; the quick tier mutates
+	// a seed-dependent selection of them, the thorough tier all
+	bases := map[string][]encoded{}
+	for ei, e := range cat {
+		if e.Shape == "" {
+			continue
+		}
+		ml := 1
+		if e.Shape == "B" {
+			ml = 0
+		}
+		v := e.Gen(t, newGen(t, seed*7919+int64(ei), ml, 0))
+		_, sb, _, err := canonical(v)
+		if err != nil {
+			t.Fatalf("base value of %s does not encode: %v", e.Name, err)
+		}
+		bases[e.Shape] = append(bases[e.Shape], encoded{e: e, val: v, ssz: sb})
+	}
+	for _, enc := range encs { // the edge attestations too
+		if strings.Contains(enc.e.Name, "/slot=") {
+			bases["Att"] = append(bases["Att"], enc)
+		}
+	}
+	quickBases := map[string]int{"B": 4, "V": 4, "Att": 7, "A": 1}
 	for _, sh := range []string{"B", "V", "Att", "A"} {
-		list := bySh[sh]
-		for i, enc := range list {
-			if len(enc.ssz)*2 <= maxHex {
-				rc.envelopeCase(t, enc.e, enc.ssz, "valid")
-			} else {
-				rc.stat("envelope_skipped_too_large", 1)
-			}
-			// mutated headers on the smaller encodings
-			if len(enc.ssz) > 12000 {
-				continue
-			}
-			if !thorough && i >= 2*len(list)/seedsPerEntry/1 && sh == "B" {
-				continue
-			}
+		list := bases[sh]
+		n := len(list)
+		if !thorough {
+			n = min(n, quickBases[sh])
+		}
+		start := int(seed) % len(list)
+		stride := max(1, len(list)/n)
+		for k := 0; k < n; k++ {
+			i := (start + k*stride) % len(list)
+			enc := list[i]
 			other := list[(i+1)%len(list)].ssz
-			ms := envMutants(sh, enc.ssz, other, r)
-			if !thorough && sh == "B" {
-				// quick tier: every second mutant of the (large) proposal encodings
-				var half []mutant
-				for j, m := range ms {
-					if (j+i)%2 == 0 {
-						half = append(half, m)
-					}
-				}
-				ms = half
-			}
-			for _, m := range ms {
+			rc.stat("envelope_mutation_bases", 1)
+			for _, m := range envMutants(sh, enc.ssz, other, r) {
 				rc.envelopeCase(t, enc.e, m.b, m.label)
 			}
 		}
@@ -1267,6 +1304,11 @@ func TestGen(t *testing.T) {
 		}
 	}
 	seenType := map[string]int{}
+	lastOfType := map[string]string{}
+	for _, enc := range encs {
+		lastOfType[enc.e.GoType] = enc.e.Name
+	}
+	firstSeen := map[string]bool{}
 	for _, enc := range encs {
 		limit := 1
 		if thorough {
@@ -1276,6 +1318,12 @@ func TestGen(t *testing.T) {
 			continue
 		}
 		seenType[enc.e.Name]++
+		if !thorough { // quick: the first and the last variant of each Go type
+			if firstSeen[enc.e.GoType] && lastOfType[enc.e.GoType] != enc.e.Name {
+				continue
+			}
+			firstSeen[enc.e.GoType] = true
+		}
 		if enc.ssz != nil {
 			rc.dispatchCases(enc.ssz, enc.e.Name+":ssz")
 			ev.explore(rc, dutyTypes, enc.ssz, "ssz", enc.e.Name, noKey("valid-ssz-crosstype"))
@@ -1285,7 +1333,7 @@ func TestGen(t *testing.T) {
 		ws := append([]byte(" \n\t"), enc.json...)
 		rc.dispatchCases(ws, enc.e.Name+":json-ws")
 	}
-	for _, s := range []string{"", "{", "{}", "[]", "[{}]", "null", "[null]", "\"\"", "0", " {", "\x00{", "{\"version\":0}", " {}", "\x0b{}", "{\"version\":3,\"block\":null}"} {
+	for _, s := range []string{"", "{", "{}", "[]", "[{}]", "null", "[null]", "\"\"", "0", " {", "\x00{", "{\"version\":0}", " {}", "\x0b{}"} {
 		rc.dispatchCases([]byte(s), "literal:"+s)
 		ev.explore(rc, dutyTypes, []byte(s), "json", "literal", noKey("literal:"+s))
 	}
